@@ -490,6 +490,17 @@ func runGenericScenario(t *testing.T, sc gScenario) (out gOutcome) {
 			case "create":
 				nextPayload++
 
+				if strings.HasPrefix(sc.Config, "cleanup") && (strings.HasPrefix(e.ID, "o") || strings.HasPrefix(e.ID, "q")) {
+					// the property's standing assumption (C07_cleanup_release_only_without_dependents): nobody creates a new
+					// dependent of an input that is already tearing down - a handler that has just found none would be
+					// overtaken by the creation and the monitor would blame the controller for the environment's move
+					if in := get("T", e.Fin); in != nil && in.Metadata().Phase() == resource.PhaseTearingDown {
+						out.fl["dependent_creation_skipped_input_tearing_down"] = true
+
+						continue
+					}
+				}
+
 				if strings.HasPrefix(sc.Config, "cleanup") && strings.HasPrefix(e.ID, "o") {
 					// a dependent output of input e.Fin (reused as the input id), owned by nobody
 					o := newOut(e.ID, "dep")
@@ -990,9 +1001,10 @@ func TestC06(t *testing.T) {
 	runGenericProperty(t, "C06", "the real transform.Controller / qtransform.QController (plain, ignore-tearing-down, ignore-teardown-until/while) inside a real Runtime under synctest, optionally with destroy.Controller on the inputs: random histories of create/update/teardown/destroy/re-create of inputs, "+
 		"foreign finalizers on inputs and outputs, transform durations 0..200ms, transient transform failures, concurrency 1-2; at every quiescence the oracle requires owned outputs == images of mapped inputs with the latest transformed content, no orphaned/stale output except ones held by foreign finalizers, no leftover finalizer on torn-down inputs whose output is gone; "+
 		"non-trivial = at least two of teardown/destroy/re-create/foreign finalizers/faults occurred; a transform with an extra output meeting a foreign leftover; a transform whose output kind has the input's type in another namespace; "+
-		"plus gated schedules of qtransform.QController.Reconcile on the real qruntime adapter (every runtime call held at a gate, environment operations within the property's assumptions in every gap, transform faults) ending with an undisturbed reconcile: replayed on GenCtl.q_step and the final state checked against GenCtlConv.converged; the same for transform.Controller.Run with two undisturbed cycles at the end (Transform.t_step)", func(rep *Report, dir string) {
+		"plus gated schedules of qtransform.QController.Reconcile on the real qruntime adapter (every runtime call held at a gate, environment operations within the property's assumptions in every gap, transform faults) ending with an undisturbed reconcile: replayed on GenCtl.q_step and the final state checked against GenCtlConv.converged; the same for transform.Controller.Run with two undisturbed cycles at the end (Transform.t_step); the same for destroy.Controller.Reconcile (Destroy.d_step; after the undisturbed reconcile no torn-down unowned item without finalizers may be left)", func(rep *Report, dir string) {
 		gatedQPhase(t, "C06")(rep, dir)
 		gatedTransformPhase(t, "C06")(rep, dir)
+		gatedDestroyPhase(t, "C06")(rep, dir)
 
 		// a transform whose output kind has the input's type (another namespace)
 		for _, p := range runSameTypeTransform(t) {
@@ -1008,10 +1020,11 @@ func TestC07(t *testing.T) {
 	runGenericProperty(t, "C07", "same runs as C06 plus cleanup controllers (RemoveOutputs, HasNoOutputs, Combine of two HasNoOutputs handlers with dependents vanishing in either order); a recording proxy around the CoreState yields the totally ordered log of committed writes; the monitor checks on every prefix: an owned output implies its input exists and carries the controller's finalizer, "+
 		"the controller removes its finalizer only when the output is gone, destroys outputs only when marked tearing down with no finalizers, and a cleanup controller releases its finalizer only when no dependent output exists; "+
 		"plus gated schedules: qtransform.QController.Reconcile is called directly on the real qruntime adapter with every runtime call held at a gate, arbitrary store operations of other parties (incl. ones the assumptions exclude) placed between any two calls, transform faults injected; "+
-		"the schedule, the kind of every runtime call, the reconcile result and the final store are replayed on GenCtl.q_step; the same for cleanup.Controller.Run with HasNoOutputs handlers (single and combined) against Cleanup.c_step, and for transform.Controller.Run with input finalizers against Transform.t_step", func(rep *Report, dir string) {
+		"the schedule, the kind of every runtime call, the reconcile result and the final store are replayed on GenCtl.q_step; the same for cleanup.Controller.Run with HasNoOutputs handlers (single and combined) against Cleanup.c_step, and for transform.Controller.Run with input finalizers against Transform.t_step, and for destroy.Controller.Reconcile against Destroy.d_step (Get and Destroy gated, every environment operation incl. destroy + re-create and revive in every gap; monitor: whatever the controller removes has no owner and no finalizers at that instant)", func(rep *Report, dir string) {
 		gatedQPhase(t, "C07")(rep, dir)
 		gatedCleanupPhase(t)(rep, dir)
 		gatedTransformPhase(t, "C07")(rep, dir)
+		gatedDestroyPhase(t, "C07")(rep, dir)
 	})
 }
 
